@@ -151,7 +151,26 @@ def run(ctx, rep, tier):
         res, m = B.solve("parens:%s|%s" % (a, b), r.assume, b_not(eq))
         if res == z3.sat:
             report(B, rep, "redundant-parentheses", model_string(m, ["-false -o "] + lp + [a] + rp + [" " + b]), "-false -o %s %s" % (a, b))
-    samples.append(dict(kind="operator spellings / redundant parentheses", operand_pairs=9 if tier == "quick" else 25))
+    # chains of 3 (thorough: also 4) operands, every connector's spelling selected independently: the tree must not depend on which
+    # connectors are written out
+    chains = [["-true", "-name x", "-print"], ["-uid 1", "! -false", "-empty"]]
+    if tier != "quick":
+        chains += [["-true", "-false", "-empty", "-print"], ["( -true -o -false )", "-name x", "-uid 2", "-quit"]]
+    for ci, ops_ in enumerate(chains):
+        for opname, spellings in (("and", ["", "-a", "-and"]), ("or", ["-o", "-or"])):
+            spec, asms = [ops_[0]], []
+            for j, o in enumerate(ops_[1:]):
+                ch, asm = slot(spellings, "ch%s%d_%d" % (opname, ci, j))
+                spec += [" "] + ch + [" " + o]
+                asms.append(asm)
+            r = B.parse(spec, extra_assume=asms)
+            reftext = (" %s " % spellings[-1]).join(ops_)
+            ref = B.parse([reftext])
+            eq = same_result(r.I, r.alts, ref.alts)
+            res, m = B.solve("spelling-chain:%s:%d" % (opname, ci), r.assume, b_not(eq))
+            if res == z3.sat:
+                report(B, rep, "operator-spelling", model_string(m, spec), reftext)
+    samples.append(dict(kind="operator spellings / redundant parentheses", operand_pairs=9 if tier == "quick" else 25, chains=len(chains)))
     # ------------------------------------------------------------- (v) empty / blank input
     ref = B.parse(["-true"])
     for k in range(0, 4):
